@@ -372,13 +372,13 @@ theorem chainMergeDiag_sound (l : List (Op K (X → K))) (s : Nat) (hs : s < 4) 
     simp only [Bool.and_eq_true] at hab
     obtain ⟨dm1, d1, t1, dt1, rfl⟩ := isDiag_cases a hab.1
     obtain ⟨dm2, d2, t2, dt2, rfl⟩ := isDiag_cases b hab.2
-    have h1 : t1 < 4 := by simpa [okC, diagOK, isBlock] using hd (Op.diag dm1 d1 t1 dt1) (by simp)
-    have h2 : t2 < 4 := by simpa [okC, diagOK, isBlock] using hd (Op.diag dm2 d2 t2 dt2) (by simp)
+    have h1 : t1 < 4 := by simpa [okC, diagOK, isBlock, isChainOp] using hd (Op.diag dm1 d1 t1 dt1) (by simp)
+    have h2 : t2 < 4 := by simpa [okC, diagOK, isBlock, isChainOp] using hd (Op.diag dm2 d2 t2 dt2) (by simp)
     have hd' : ∀ o ∈ diagCombineProd S (Op.diag dm1 d1 t1 dt1) (Op.diag dm2 d2 t2 dt2) :: rest, okC o = true := by
       intro o ho
       simp only [List.mem_cons] at ho
       rcases ho with rfl | ho
-      · simp [diagCombineProd, okC, diagOK, isBlock]
+      · simp [diagCombineProd, okC, diagOK, isBlock, isChainOp]
       · exact hd o (by simp [ho])
     obtain ⟨ih1, ih2⟩ := ih hd'
     refine ⟨?_, ih2⟩
@@ -445,7 +445,7 @@ theorem chainAbsorb_sound (f : K) (l : List (Op K (X → K))) (s : Nat) (hs : s 
   | cons o os ih =>
     by_cases hdg : isDiag o = true
     · obtain ⟨dm, d, t, dt, rfl⟩ := isDiag_cases o hdg
-      have ht : t < 4 := by simpa [okC, diagOK, isBlock] using hd (Op.diag dm d t dt) (by simp)
+      have ht : t < 4 := by simpa [okC, diagOK, isBlock, isChainOp] using hd (Op.diag dm d t dt) (by simp)
       simp only [chainAbsorb, hdg, if_true, List.map_cons]
       refine ⟨?_, ?_⟩
       · rw [diagScale_sound isReal re blocks leaf dm d t dt f s ht hs, mprod_cons_smul]
@@ -454,7 +454,7 @@ theorem chainAbsorb_sound (f : K) (l : List (Op K (X → K))) (s : Nat) (hs : s 
       · intro o ho
         simp only [List.mem_cons] at ho
         rcases ho with rfl | ho
-        · simp [diagScale, okC, diagOK, isBlock]
+        · simp [diagScale, okC, diagOK, isBlock, isChainOp]
         · exact hd o (by simp [ho])
     · have hdg' : isDiag o = false := by simpa using hdg
       have hd' : ∀ o ∈ os, okC o = true := fun x hx => hd x (by simp [hx])
@@ -513,14 +513,15 @@ theorem chainAppend_sound (l : List (Op K (X → K))) (f : K) (dom : Nat) (s : N
 theorem chainMergeDiag_sound' (mk : List (Op K (X → K)) → Op K (X → K)) (l : List (Op K (X → K))) (s : Nat) (hs : s < 4)
     (hd : ∀ o ∈ l, okC o = true) :
     mprod (revOf s) ((chainMergeBlock S mk (chainMergeDiag S l)).map (den S · (1 <<< s))) =
-      mprod (revOf s) (l.map (den S · (1 <<< s))) ∧ (l ≠ [] → chainMergeBlock S mk (chainMergeDiag S l) ≠ []) := by
+      mprod (revOf s) (l.map (den S · (1 <<< s))) ∧ (l ≠ [] → chainMergeBlock S mk (chainMergeDiag S l) ≠ []) ∧
+      (∀ o ∈ chainMergeBlock S mk (chainMergeDiag S l), okC o = true) := by
   obtain ⟨h1, h2⟩ := chainMergeDiag_sound isReal re blocks leaf l s hs hd
   have hnb := chainMergeBlock_noblock isReal re blocks leaf mk _ (fun o ho => by
     have := h2 o ho
     simp only [okC, Bool.and_eq_true, Bool.not_eq_true'] at this
-    exact this.2)
+    exact this.1.2)
   rw [hnb]
-  exact ⟨h1, chainMergeDiag_ne isReal re blocks leaf l⟩
+  exact ⟨h1, chainMergeDiag_ne isReal re blocks leaf l, h2⟩
 
 /-- collapsing a chain that contains a NullOperator keeps the product (both are zero) -/
 theorem chainNullCollapse_sound (ops1 : List (Op K (X → K))) (s : Nat) (hs : s < 4) (hok : ∀ o ∈ ops1, okC o = true) :
@@ -541,7 +542,7 @@ theorem chainNullCollapse_sound (ops1 : List (Op K (X → K))) (s : Nat) (hs : s
     · intro o ho
       simp only [List.mem_singleton] at ho
       subst ho
-      simp [okC, diagOK, isBlock]
+      simp [okC, diagOK, isBlock, isChainOp]
   · have hnull' : ops1.any isNull = false := by simpa using hnull
     simp only [hnull', Bool.false_eq_true, if_false]
     constructor
@@ -552,7 +553,7 @@ theorem chainNullCollapse_sound (ops1 : List (Op K (X → K))) (s : Nat) (hs : s
 theorem chainPost_sound (hre : ∀ c, isReal c = true → re c = c) (mk : List (Op K (X → K)) → Op K (X → K))
     (ops1 : List (Op K (X → K))) (s : Nat) (hs : s < 4) (hok : ∀ o ∈ ops1, okC o = true) :
     mprod (revOf s) ((chainPost S mk ops1).map (den S · (1 <<< s))) = mprod (revOf s) (ops1.map (den S · (1 <<< s))) ∧
-    chainPost S mk ops1 ≠ [] := by
+    chainPost S mk ops1 ≠ [] ∧ (∀ o ∈ chainPost S mk ops1, okC o = true) := by
   simp only [chainPost]
   have hcol := chainCollect_sound isReal re blocks leaf hre ops1 (msem isReal re blocks leaf).kone s hs
   have hone : modeScalar (msem isReal re blocks leaf).kone s = 1 := modeScalar_one s hs
@@ -571,13 +572,13 @@ theorem chainPost_sound (hre : ∀ c, isReal c = true → re c = c) (mk : List (
     have hm := chainMergeDiag_sound' isReal re blocks leaf mk
       (if (!decide ((1 : K) = 1) || opsnew.isEmpty) = true then opsnew ++ [Op.scaling (lastDom ops1) 1 0] else opsnew) s hs ?_
     · simp only [decide_true, Bool.not_true] at hm
-      exact ⟨hm.1.trans happ, hm.2 (appendScaling_ne _ _ _)⟩
+      exact ⟨hm.1.trans happ, hm.2.1 (appendScaling_ne _ _ _), hm.2.2⟩
     intro o ho
     split at ho
     · simp only [List.mem_append, List.mem_singleton] at ho
       rcases ho with ho | rfl
       · exact hfilt o ho
-      · simp [okC, diagOK, isBlock]
+      · simp [okC, diagOK, isBlock, isChainOp]
     · exact hfilt o ho
   · have hdf : decide (fct = 1) = false := by simpa using hf
     simp only [hk, hdf, Bool.not_false, if_true]
@@ -589,13 +590,13 @@ theorem chainPost_sound (hre : ∀ c, isReal c = true → re c = c) (mk : List (
       (if (!decide ((chainAbsorb S fct opsnew).2 = 1) || (chainAbsorb S fct opsnew).1.isEmpty) = true then
         (chainAbsorb S fct opsnew).1 ++ [Op.scaling (lastDom ops1) (chainAbsorb S fct opsnew).2 0]
       else (chainAbsorb S fct opsnew).1) s hs ?_
-    · exact ⟨hm.1.trans (happ.trans ha1), hm.2 (appendScaling_ne _ _ _)⟩
+    · exact ⟨hm.1.trans (happ.trans ha1), hm.2.1 (appendScaling_ne _ _ _), hm.2.2⟩
     intro o ho
     split at ho
     · simp only [List.mem_append, List.mem_singleton] at ho
       rcases ho with ho | rfl
       · exact ha2 o ho
-      · simp [okC, diagOK, isBlock]
+      · simp [okC, diagOK, isBlock, isChainOp]
     · exact ha2 o ho
 
 /-- **ChainOperator.simplify preserves the action** (lists without block-diagonal operators): the mode-ordered product of the
@@ -605,11 +606,11 @@ theorem chainSimplifyCore_sound (hre : ∀ c, isReal c = true → re c = c) (mk 
     (hne : ∀ o ∈ ops, ∀ l, o = Op.chain l → l ≠ [])
     (hok : ∀ o ∈ chainFlatten ops, okC o = true) :
     mprod (revOf s) ((chainSimplifyCore S mk ops).map (den S · (1 <<< s))) = mprod (revOf s) (ops.map (den S · (1 <<< s))) ∧
-    chainSimplifyCore S mk ops ≠ [] := by
+    chainSimplifyCore S mk ops ≠ [] ∧ (∀ o ∈ chainSimplifyCore S mk ops, okC o = true) := by
   unfold chainSimplifyCore
   obtain ⟨hn1, hn2⟩ := chainNullCollapse_sound isReal re blocks leaf (chainFlatten ops) s hs hok
-  obtain ⟨hp1, hp2⟩ := chainPost_sound isReal re blocks leaf hre mk _ s hs hn2
-  exact ⟨by rw [hp1, hn1, chainFlatten_sound isReal re blocks leaf ops s hs hne], hp2⟩
+  obtain ⟨hp1, hp2, hp3⟩ := chainPost_sound isReal re blocks leaf hre mk _ s hs hn2
+  exact ⟨by rw [hp1, hn1, chainFlatten_sound isReal re blocks leaf ops s hs hne], hp2, hp3⟩
 
 theorem isIdentity_den (o : Op K (X → K)) (h : isIdentity S o = true) (m : Nat) : den S o m = 1 := by
   cases o <;> simp [isIdentity] at h
@@ -641,8 +642,10 @@ theorem mkChainU_sound (hre : ∀ c, isReal c = true → re c = c) (fuel : Nat) 
           refine ⟨?_, by simp⟩
           simp only [List.map_cons, List.map_nil, mprod_cons, mprod_nil, isIdentity_den isReal re blocks leaf b hb]
           cases revOf s <;> simp
-        · exact chainSimplifyCore_sound isReal re blocks leaf hre _ _ s hs hne hok
-    · exact chainSimplifyCore_sound isReal re blocks leaf hre _ _ s hs hne hok
+        · have := chainSimplifyCore_sound isReal re blocks leaf hre (mkChainU S fuel) _ s hs hne hok
+          exact ⟨this.1, this.2.1⟩
+    · have := chainSimplifyCore_sound isReal re blocks leaf hre (mkChainU S fuel) _ s hs hne hok
+      exact ⟨this.1, this.2.1⟩
   obtain ⟨hL1, hL2⟩ := hL
   rw [mkChainU]
   rw [← hL1]
@@ -691,7 +694,7 @@ theorem sumAbsorb_sound (c : K) (dt : Nat) (l : List (Op K (X → K) × Bool)) (
     · simp only [sumAbsorb, hc, if_true]
       simp only [Bool.and_eq_true] at hc
       obtain ⟨dm, d, t, dt', rfl⟩ := isDiag_cases o hc.1
-      have ht : t < 4 := by simpa [okC, diagOK, isBlock] using hd (Op.diag dm d t dt', n) (by simp)
+      have ht : t < 4 := by simpa [okC, diagOK, isBlock, isChainOp] using hd (Op.diag dm d t dt', n) (by simp)
       have hz : (msem isReal re blocks leaf).kzero = (0 : K) := rfl
       refine ⟨?_, ?_⟩
       · rw [ssum_cons, ssum_cons, hz, modeScalar_zero2 s hs, zero_smul, add_zero,
@@ -705,7 +708,7 @@ theorem sumAbsorb_sound (c : K) (dt : Nat) (l : List (Op K (X → K) × Bool)) (
       · intro p hp
         simp only [List.mem_cons] at hp
         rcases hp with rfl | hp
-        · simp [diagAdd, okC, diagOK, isBlock]
+        · simp [diagAdd, okC, diagOK, isBlock, isChainOp]
         · exact hd' p hp
     · have hc' : (isDiag o && dtOf o == dt) = false := by simpa using hc
       obtain ⟨ih1, ih2⟩ := ih hd'
@@ -723,7 +726,7 @@ theorem diagCombineSum_isDiag (a b : Op K (X → K)) (na nb : Bool) (ha : isDiag
     isDiag (diagCombineSum S a b na nb) = true ∧ okC (diagCombineSum S a b na nb) = true := by
   obtain ⟨dm, d, t, dt, rfl⟩ := isDiag_cases a ha
   obtain ⟨dm2, d2, t2, dt2, rfl⟩ := isDiag_cases b hb
-  simp [diagCombineSum, isDiag, okC, diagOK, isBlock]
+  simp [diagCombineSum, isDiag, okC, diagOK, isBlock, isChainOp]
 
 /-- inner loop of the diagonal merge of SumOperator.simplify: later diagonals with the same sampling dtype are merged into the
     accumulator with their signs; the accumulator's own sign becomes "+" after the first merge -/
@@ -751,8 +754,8 @@ theorem sumAbsorbDiags_sound (dt0 : Nat) (acc : Op K (X → K)) (accneg : Bool) 
       rw [ih1, ssum_cons]
       obtain ⟨dm, d, t, dt, rfl⟩ := isDiag_cases acc hacc
       obtain ⟨dm2, d2, t2, dt2, rfl⟩ := isDiag_cases o hc.1
-      have ht : t < 4 := by simpa [okC, diagOK, isBlock] using hokacc
-      have ht2 : t2 < 4 := by simpa [okC, diagOK, isBlock] using hd (Op.diag dm2 d2 t2 dt2, n) (by simp)
+      have ht : t < 4 := by simpa [okC, diagOK, isBlock, isChainOp] using hokacc
+      have ht2 : t2 < 4 := by simpa [okC, diagOK, isBlock, isChainOp] using hd (Op.diag dm2 d2 t2 dt2, n) (by simp)
       simp only [Bool.false_eq_true, if_false]
       rw [diagCombineSum_sound isReal re blocks leaf dm dm2 d d2 t t2 dt dt2 accneg n s ht ht2 hs, add_assoc]
     · have hc' : (isDiag o && dtOf o == dt0) = false := by simpa using hc
@@ -864,13 +867,13 @@ theorem sumProcessGroup_sound (fuel : Nat) (mk : List (Op K (X → K)) → List 
       · simp only [List.mem_append, List.mem_singleton] at hp
         rcases hp with hp | rfl
         · exact hl p hp
-        · simp [okC, diagOK, isBlock]
+        · simp [okC, diagOK, isBlock, isChainOp]
       · exact hl p hp
     obtain ⟨hm1, hm2⟩ := sumMergeDiags_sound isReal re blocks leaf _ s hs hok3
     rw [sumMergeBlocks_noblock isReal re blocks leaf fuel mk _ (fun p hp => by
       have := hm2 p hp
       simp only [okC, Bool.and_eq_true, Bool.not_eq_true'] at this
-      exact this.2), hm1]
+      exact this.1.2), hm1]
     by_cases hc : (!decide (f = 0) || l.isEmpty) = true
     · simp only [hc, if_true]
       rw [ssum_append, ssum_cons, ssum_nil, den_scaling isReal re blocks leaf _ f dtype s hs4]
@@ -1072,7 +1075,7 @@ theorem mkSumU_sound (hre : ∀ c, isReal c = true → re c = c) (fuel : Nat) (o
         (by intro x hx
             simp only [chainFlatten, List.flatMap_cons, List.flatMap_nil, List.append_nil, List.mem_append] at hx h2
             rcases hx with hx | hx
-            · simp only [List.mem_singleton] at hx; subst hx; simp [okC, diagOK, isBlock]
+            · simp only [List.mem_singleton] at hx; subst hx; simp [okC, diagOK, isBlock, isChainOp]
             · exact h2 x hx)]
       simp only [List.map_cons, List.map_nil, mprod_cons, mprod_nil]
       rw [den_scaling isReal re blocks leaf _ _ 0 s hs4]
@@ -1088,8 +1091,6 @@ theorem mkSumU_sound (hre : ∀ c, isReal c = true → re c = c) (fuel : Nat) (o
 
 
 /-! ### Part 6 — `_flip_modes` of every operator (chains included) and InversionEnabler, all four modes -/
-
-def isChainOp : Op K (X → K) → Bool | .chain _ => true | _ => false
 
 /-- shape invariants of operator objects as the constructors produce them: transformations are 0..3, adapters never wrap chains,
     chains are non-empty and flat; block-diagonal operators are excluded as chain members / adapter operands (their merging needs a
@@ -1259,13 +1260,244 @@ theorem invEnabler_invop_sound (hre : ∀ c, isReal c = true → re c = c) (o : 
     simp only [hnd, if_false, h1]
     rfl
 
+/-! ### Part 7 — operands of `ChainOperator.make`, `@`, `.scale`, and SandwichOperator.make with all its shortcuts -/
+
+/-- an operator that may be handed to `ChainOperator.make`: if it is a chain it is non-empty, and its members (or itself) satisfy `okC` -/
+def opnd (x : Op K (X → K)) : Prop := (∀ l, x = Op.chain l → l ≠ []) ∧ ∀ y ∈ chainFlatten [x], okC y = true
+
+theorem chainFlatten_append (l1 l2 : List (Op K (X → K))) : chainFlatten (l1 ++ l2) = chainFlatten l1 ++ chainFlatten l2 := by
+  simp [chainFlatten, List.flatMap_append]
+
+theorem chainFlatten_cons (x : Op K (X → K)) (l : List (Op K (X → K))) :
+    chainFlatten (x :: l) = chainFlatten [x] ++ chainFlatten l := chainFlatten_append [x] l
+
+theorem opnd_list (ops : List (Op K (X → K))) (h : ∀ x ∈ ops, opnd x) :
+    (∀ o ∈ ops, ∀ l, o = Op.chain l → l ≠ []) ∧ ∀ y ∈ chainFlatten ops, okC y = true := by
+  refine ⟨fun o ho => (h o ho).1, ?_⟩
+  induction ops with
+  | nil => simp [chainFlatten]
+  | cons x xs ih =>
+    intro y hy
+    rw [chainFlatten_cons, List.mem_append] at hy
+    rcases hy with hy | hy
+    · exact (h x (by simp)).2 y hy
+    · exact ih (fun z hz => h z (by simp [hz])) y hy
+
+theorem opnd_of_okC (x : Op K (X → K)) (h : okC x = true) : opnd x := by
+  have hc : isChainOp x = false := by
+    simp only [okC, Bool.and_eq_true, Bool.not_eq_true'] at h; exact h.2
+  refine ⟨?_, ?_⟩
+  · intro l hl; rw [hl] at hc; simp [isChainOp] at hc
+  · rw [chainFlatten_nochain [x] (by intro y hy; simp at hy; rw [hy]; exact hc)]
+    intro y hy; simp at hy; rw [hy]; exact h
+
+/-- the result of `ChainOperator.make` can itself be handed to `ChainOperator.make` -/
+theorem mkChainU_opnd (hre : ∀ c, isReal c = true → re c = c) (fuel : Nat) (ops : List (Op K (X → K)))
+    (hne0 : ops ≠ []) (h : ∀ x ∈ ops, opnd x) : opnd (mkChainU S (fuel + 1) ops) := by
+  obtain ⟨hne, hok⟩ := opnd_list ops h
+  rw [mkChainU]
+  have hcore := chainSimplifyCore_sound isReal re blocks leaf hre (mkChainU S fuel) ops 0 (by decide) hne hok
+  have hres : ∀ L, L = chainSimplify S (mkChainU S fuel) ops →
+      (∃ x ∈ ops, L = [x]) ∨ (L ≠ [] ∧ ∀ y ∈ L, okC y = true) := by
+    intro L hL
+    unfold chainSimplify at hL
+    split at hL
+    · exact Or.inl ⟨_, by simp, hL⟩
+    · split at hL
+      · exact Or.inl ⟨_, by simp, hL⟩
+      · split at hL
+        · exact Or.inl ⟨_, by simp, hL⟩
+        · exact Or.inr (hL ▸ hcore.2)
+    · exact Or.inr (hL ▸ hcore.2)
+  rcases hres _ rfl with ⟨x, hx, hL⟩ | ⟨hLne, hLok⟩
+  · rw [hL]; exact h x hx
+  · split
+    · rename_i o heq
+      exact opnd_of_okC _ (hLok o (by rw [heq]; simp))
+    · rename_i L' hL'
+      refine ⟨fun l hl => by injection hl with hl; rw [← hl]; exact hLne, ?_⟩
+      have : chainFlatten [Op.chain (chainSimplify S (mkChainU S fuel) ops)] = chainSimplify S (mkChainU S fuel) ops := by
+        simp [chainFlatten]
+      rw [this]; exact hLok
+
+/-- `a @ b` (LinearOperator.__matmul__): the mode-ordered product of the two operands -/
+theorem matmul_sound (hre : ∀ c, isReal c = true → re c = c) (a b r : Op K (X → K)) (h : matmul S a b = .ok r)
+    (ha : opnd a) (hb : opnd b) (s : Nat) (hs : s < 4) :
+    den S r (1 <<< s) = mprod (revOf s) [den S a (1 <<< s), den S b (1 <<< s)] ∧ opnd r := by
+  unfold matmul at h
+  split at h
+  · rename_i hid
+    injection h with h; subst h
+    refine ⟨?_, ha⟩
+    simp only [mprod_cons, mprod_nil, isIdentity_den isReal re blocks leaf b hid]
+    cases revOf s <;> simp
+  · unfold mkChain at h
+    have hF : FUEL = 63 + 1 := rfl
+    have hlist : ∀ x ∈ [a, b], opnd x := by
+      intro x hx; simp only [List.mem_cons, List.not_mem_nil, or_false] at hx
+      rcases hx with rfl | rfl
+      · exact ha
+      · exact hb
+    obtain ⟨hne, hok⟩ := opnd_list [a, b] hlist
+    simp only [List.isEmpty_cons, Bool.false_eq_true, if_false, List.length_cons, List.length_nil] at h
+    split at h
+    · rename_i hl; simp at hl
+    · split at h
+      · injection h with h; subst h
+        rw [hF]
+        exact ⟨mkChainU_sound isReal re blocks leaf hre 63 [a, b] s hs (by simp) hne hok,
+          mkChainU_opnd isReal re blocks leaf hre 63 [a, b] (by simp) hlist⟩
+      · cases h
+
+
+def isSumOp : Op K (X → K) → Bool | .sum _ _ => true | _ => false
+
+theorem goodF_diagOK (y : Op K (X → K)) (h : goodF y = true) : diagOK y = true := by
+  cases y <;> simp_all [goodF, diagOK]
+
+/-- a flipped operator can be handed to `ChainOperator.make` -/
+theorem flip_opnd (hre : ∀ c, isReal c = true → re c = c) (x : Op K (X → K)) (t : Nat) (ht : t < 4) (hg : goodF x = true)
+    (hb : isBlock x = false) : opnd (OpAlgebra.flip S x t) := by
+  by_cases hc : isChainOp x = true
+  · obtain ⟨l, rfl⟩ : ∃ l, x = Op.chain l := by cases x <;> simp [isChainOp] at hc; exact ⟨_, rfl⟩
+    obtain ⟨hne, hmem⟩ := goodF_chain l hg
+    unfold OpAlgebra.flip
+    have hF : FUEL = 63 + 1 := rfl
+    split
+    · exact ⟨fun l' hl' => by injection hl' with hl'; rw [← hl']; exact hne, by
+        rw [show chainFlatten [Op.chain l] = l by simp [chainFlatten]]
+        intro y hy
+        obtain ⟨h1, h2, h3⟩ := hmem y hy
+        simp [okC, goodF_diagOK y h1, h2, h3]⟩
+    · split
+      · rw [hF]
+        apply mkChainU_opnd isReal re blocks leaf hre 63 _ (by simpa using hne)
+        intro y hy
+        simp only [List.mem_map, List.mem_reverse] at hy
+        obtain ⟨z, hz, rfl⟩ := hy
+        exact opnd_of_okC _ (flip_member isReal re blocks leaf z t ht (hmem z hz).1 (hmem z hz).2.1 (hmem z hz).2.2).2
+      · rw [hF]
+        apply mkChainU_opnd isReal re blocks leaf hre 63 _ (by simpa using hne)
+        intro y hy
+        simp only [List.mem_map] at hy
+        obtain ⟨z, hz, rfl⟩ := hy
+        exact opnd_of_okC _ (flip_member isReal re blocks leaf z t ht (hmem z hz).1 (hmem z hz).2.1 (hmem z hz).2.2).2
+  · have hc' : isChainOp x = false := by simpa using hc
+    exact opnd_of_okC _ (flip_member isReal re blocks leaf x t ht hg hb hc').2
+
+theorem adjointOf_nonsum (x : Op K (X → K)) (h : isSumOp x = false) : adjointOf S x = OpAlgebra.flip S x ADJOINT_BIT := by
+  cases x <;> first | (simp [isSumOp] at h; done) | (simp only [adjointOf])
+
+theorem modeScalar_xor1 (c : K) (s : Nat) (hs : s < 4) : modeScalar c (s ^^^ 1) = modeScalar (star c) s := by
+  interval_cases s <;> simp [modeScalar]
+
+/-- `op.scale(f)` (Operator.scale): every mode is the mode-scalar of `f` times the operator -/
+theorem scale_sound (hre : ∀ c, isReal c = true → re c = c) (o r : Op K (X → K)) (f : K) (h : scale S o f = .ok r) (ho : opnd o)
+    (s : Nat) (hs : s < 4) : den S r (1 <<< s) = modeScalar f s • den S o (1 <<< s) := by
+  unfold scale at h
+  have hk : (msem isReal re blocks leaf).keq f (msem isReal re blocks leaf).kone = decide (f = 1) := rfl
+  rw [hk] at h
+  by_cases hf : f = 1
+  · simp only [hf, decide_true, if_true] at h
+    injection h with h; subst h; rw [hf, modeScalar_one s hs, one_smul]
+  · have : decide (f = 1) = false := by simpa using hf
+    simp only [this, Bool.false_eq_true, if_false] at h
+    unfold callOp at h
+    have hid : isIdentity S (Op.scaling (tgt o) f 0 : Op K (X → K)) = false := by
+      simp [isIdentity, msem, hf]
+    simp only [hid, Bool.false_eq_true, if_false] at h
+    have hsc : opnd (Op.scaling (tgt o) f 0 : Op K (X → K)) := opnd_of_okC _ (by simp [okC, diagOK, isBlock, isChainOp])
+    rw [(matmul_sound isReal re blocks leaf hre _ _ _ h hsc ho s hs).1, den_scaling isReal re blocks leaf _ f 0 s hs]
+    simp only [mprod_cons, mprod_nil]
+    cases revOf s <;> simp
+
+/-- **SandwichOperator.make** (second part, all shortcuts): the result acts in every mode as the mode-ordered product of
+    `bun.adjoint`, `cheese`, `bun` — for a scaling bun `g` that is `|g|²·cheese` (returned as the cheese itself when `|g|² = 1`) -/
+theorem sandwichCore_sound (hre : ∀ c, isReal c = true → re c = c) (bun cheese r : Op K (X → K))
+    (h : sandwichCore S bun cheese = .ok r) (hg : goodF bun = true) (hb : isBlock bun = false) (hsum : isSumOp bun = false)
+    (hbo : opnd bun) (hco : opnd cheese) (s : Nat) (hs : s < 4) :
+    den S r (1 <<< s) =
+      mprod (revOf s) [den S bun (1 <<< (s ^^^ 1)), den S cheese (1 <<< s), den S bun (1 <<< s)] := by
+  have hx : s ^^^ 1 < 4 := xor_lt4 s hs 1 (by decide)
+  unfold sandwichCore at h
+  split at h
+  · rename_i d c dt
+    have hk : (msem isReal re blocks leaf).keq ((msem isReal re blocks leaf).kabs2 c) (msem isReal re blocks leaf).kone =
+        decide (c * star c = 1) := rfl
+    rw [hk] at h
+    have hprod : mprod (revOf s) [den S (Op.scaling d c dt) (1 <<< (s ^^^ 1)), den S cheese (1 <<< s),
+        den S (Op.scaling d c dt) (1 <<< s)] = modeScalar (c * star c) s • den S cheese (1 <<< s) := by
+      rw [den_scaling isReal re blocks leaf d c dt _ hx, den_scaling isReal re blocks leaf d c dt s hs,
+        modeScalar_xor1 c s hs, modeScalar_mul _ _ s hs]
+      simp only [mprod_cons, mprod_nil]
+      cases revOf s <;> simp [smul_smul, mul_comm]
+    rw [hprod]
+    by_cases hf : c * star c = 1
+    · simp only [hf, decide_true, if_true] at h
+      injection h with h; subst h
+      rw [hf, modeScalar_one s hs, one_smul]
+    · have : decide (c * star c = 1) = false := by simpa using hf
+      simp only [this, Bool.false_eq_true, if_false] at h
+      split at h
+      · rename_i op hop
+        injection h with h; subst h
+        rw [den_sandwich]
+        exact scale_sound isReal re blocks leaf hre cheese op _ hop hco s hs
+      · cases h
+  · rename_i hns
+    rw [adjointOf_nonsum isReal re blocks leaf bun hsum] at h
+    split at h
+    · cases h
+    · rename_i t ht
+      split at h
+      · rename_i op hop
+        injection h with h; subst h
+        rw [den_sandwich]
+        have hadj : opnd (OpAlgebra.flip S bun ADJOINT_BIT) := flip_opnd isReal re blocks leaf hre bun 1 (by decide) hg hb
+        obtain ⟨ht1, ht2⟩ := matmul_sound isReal re blocks leaf hre _ _ _ ht hadj hco s hs
+        have hfl : den S (OpAlgebra.flip S bun ADJOINT_BIT) (1 <<< s) = den S bun (1 <<< (s ^^^ 1)) :=
+          flip_sound isReal re blocks leaf hre bun 1 (by decide) hg s hs
+        rw [(matmul_sound isReal re blocks leaf hre _ _ _ hop ht2 hbo s hs).1, ht1, hfl]
+        simp only [mprod_cons, mprod_nil]
+        cases revOf s <;> simp [Matrix.mul_assoc]
+      · cases h
+
+
+def isSandwichOp : Op K (X → K) → Bool | .sandwich _ _ _ => true | _ => false
+
+/-- **SandwichOperator.make(bun, cheese)** for a cheese that is not itself a SandwichOperator (`none`: the identity): every
+    shortcut included, the result acts in mode `s` as the mode-ordered product of `bun.adjoint`, `cheese`, `bun` -/
+theorem mkSandwich_sound (hre : ∀ c, isReal c = true → re c = c) (bun : Op K (X → K)) (cheese : Option (Op K (X → K)))
+    (dt : Nat) (r : Op K (X → K)) (h : mkSandwich S bun cheese dt = .ok r)
+    (hns : ∀ c, cheese = some c → isSandwichOp c = false ∧ opnd c)
+    (hg : goodF bun = true) (hb : isBlock bun = false) (hsum : isSumOp bun = false) (hbo : opnd bun) (s : Nat) (hs : s < 4) :
+    den S r (1 <<< s) = mprod (revOf s) [den S bun (1 <<< (s ^^^ 1)),
+      (match cheese with | some c => den S c (1 <<< s) | none => 1), den S bun (1 <<< s)] := by
+  unfold mkSandwich sandwichArgs at h
+  cases cheese with
+  | none =>
+    simp only at h
+    have hco : opnd (Op.scaling (tgt bun) (msem isReal re blocks leaf).kone dt : Op K (X → K)) :=
+      opnd_of_okC _ (by simp [okC, diagOK, isBlock, isChainOp])
+    rw [sandwichCore_sound isReal re blocks leaf hre bun _ r h hg hb hsum hbo hco s hs]
+    have : den S (Op.scaling (tgt bun) (msem isReal re blocks leaf).kone dt : Op K (X → K)) (1 <<< s) = 1 :=
+      isIdentity_den isReal re blocks leaf _ (by simp [isIdentity, msem]) _
+    rw [this]
+  | some c =>
+    obtain ⟨hc1, hc2⟩ := hns c rfl
+    cases c with
+    | sandwich a b o => simp [isSandwichOp] at hc1
+    | _ =>
+      simp only at h
+      exact sandwichCore_sound isReal re blocks leaf hre bun _ r h hg hb hsum hbo hc2 s hs
+
 /-- non-vacuity of the hypotheses of `mkChainU_sound`: a diagonal with pending adjoint, a nested chain with a scaling, a leaf -/
 example : (∀ o ∈ chainFlatten [Op.diag 0 (fun _ : Fin 2 => (2 : ℚ)) 1 0, Op.chain [Op.scaling 0 (3 : ℚ) 0, Op.leaf 7 15 0 0]],
     okC o = true) ∧
     (∀ o ∈ [Op.diag 0 (fun _ : Fin 2 => (2 : ℚ)) 1 0, Op.chain [Op.scaling 0 (3 : ℚ) 0, Op.leaf 7 15 0 0]],
       ∀ l, o = Op.chain l → l ≠ []) := by
   constructor
-  · simp [chainFlatten, okC, diagOK, isBlock]
+  · simp [chainFlatten, okC, diagOK, isBlock, isChainOp]
   · intro o ho l hl
     simp only [List.mem_cons, List.not_mem_nil, or_false] at ho
     rcases ho with rfl | rfl
